@@ -1,10 +1,10 @@
 package sym
 
 import (
-	"golang.org/x/tools/go/ssa"
 	"fmt"
 	"go/token"
 	"go/types"
+	"golang.org/x/tools/go/ssa"
 	"sort"
 	"strings"
 )
@@ -30,12 +30,12 @@ type G struct {
 }
 
 type Chan struct {
-	cap     int
-	elem    types.Type
-	buf     []Value
-	closed  bool
-	recvq   []*G
-	sendq   []*sendWait
+	cap    int
+	elem   types.Type
+	buf    []Value
+	closed bool
+	recvq  []*G
+	sendq  []*sendWait
 }
 
 type sendWait struct {
@@ -439,6 +439,9 @@ type mutexState struct {
 	writer  *G
 	readers map[*G]int
 	name    string
+	// goroutines blocked in Lock: as in sync.RWMutex, a pending writer makes new readers wait
+	// (a recursive RLock behind a waiting writer deadlocks)
+	waitingWriters int
 }
 
 func (m *Machine) mutexOf(p *Value) *mutexState {
@@ -454,12 +457,16 @@ func (m *Machine) lockMutex(p *Value, exclusive bool, what string) {
 	m.schedPoint()
 	ms := m.mutexOf(p)
 	if exclusive {
-		m.waitUntil(func() bool { return ms.writer == nil && len(ms.readers) == 0 }, what)
+		if !(ms.writer == nil && len(ms.readers) == 0) {
+			ms.waitingWriters++
+			m.waitUntil(func() bool { return ms.writer == nil && len(ms.readers) == 0 }, what)
+			ms.waitingWriters--
+		}
 		ms.writer = m.cur
 		m.hbAcquire(ms)
 		m.hbAcquire(&ms.readers) // readers' releases
 	} else {
-		m.waitUntil(func() bool { return ms.writer == nil }, what)
+		m.waitUntil(func() bool { return ms.writer == nil && ms.waitingWriters == 0 }, what)
 		ms.readers[m.cur]++
 		m.hbAcquire(ms) // writers' releases only
 	}
@@ -594,11 +601,11 @@ func (m *Machine) hbAcquire(obj interface{}) {
 	}
 }
 
-func (ls *locksetState) allocated(m *Machine, cell *Value)       {}
+func (ls *locksetState) allocated(m *Machine, cell *Value)        {}
 func (ls *locksetState) allocatedObj(m *Machine, obj interface{}) {}
 
 func (ls *locksetState) access(m *Machine, cell interface{}, write bool, pos token.Pos) {
-	if m.cur == nil {
+	if m.cur == nil || m.raceExempt > 0 {
 		return
 	}
 	g := m.cur.id
